@@ -147,6 +147,33 @@ static void life_case(uint64_t idx)
         VH_COUNT("many_objects_alive_rounds", 1); VH_MAXC("max_objects_alive_at_once", NOBJ);
         if (bad >= 0) { snprintf(d, sizeof(d), "{\"objects_alive\":%d,\"first_wrong_object\":%d,\"cipher\":\"%s\"}", NOBJ, bad, c->name); snprintf(nm, sizeof(nm), "C15:%s:object-affected-by-other-live-objects", c->name); viol(nm, idx, d); }
     }
+    if (wipe_mode && idx % 25 == 3) {
+        /* bulk usage: requests of 64 KiB..300 KiB that grow, then thousands of small requests, then cleanup:
+           any scratch memory the library allocates, resizes or drops on the way is scanned at its free() as well */
+        const vh_cipher *c = &vh_ciphers[(idx / 25) % CIPH_N]; int par = (int)((idx / 75) & 1), be = (int)((idx / 150) % (uint64_t)(maxbe[c->id] + 1)), k;
+        vh_handle h; static uint8_t big[320000]; uint8_t key[48]; size_t sizes[4] = {70000, 150000, 66000, 300000};
+        memset(&h, 0, sizeof(h)); memset(key, 0xFF, sizeof(key)); memset(big, 0xA7, sizeof(big));
+        am_mark(MAXOBJ - 1, -1); vh_set_cap(be); is_par[MAXOBJ - 1] = par; OB[MAXOBJ - 1].cap = be; OB[MAXOBJ - 1].id = MAXOBJ - 1;
+        if (par) PH[MAXOBJ - 1].c = c; else CH[MAXOBJ - 1].c = c;
+        if (K < MAXOBJ) K = MAXOBJ;                 /* so that the log checker attributes the events */
+        vh_set_crash_key("C17:bulk-usage");
+        vh_call_begin("bulk usage");
+        if (par) {
+            c->par_init(&h); c->par_set_key(&h, key, 16, 8, MANTIS_ENCRYPT);
+            for (k = 0; k < 4; ++k) c->par_encrypt(big, big, big, sizes[k] / c->bb * c->bb, &h);
+            for (k = 0; k < 2100; ++k) c->par_encrypt(big, big, big, c->bb * (size_t)(1 + (k & 3)), &h);
+            if (c->par_decrypt) c->par_decrypt(big, big, big, sizes[1] / c->bb * c->bb, &h);
+        } else {
+            c->ctr_init(&h); c->ctr_set_key(&h, key, 16, 8); c->ctr_set_counter(&h, key, c->bb);
+            for (k = 0; k < 4; ++k) c->ctr_encrypt(big, big, sizes[k] + (size_t)k, &h);
+            for (k = 0; k < 2100; ++k) c->ctr_encrypt(big, big, (size_t)(1 + (k % 37)), &h);
+            c->ctr_encrypt(big, big, 5, &h);
+        }
+        vh_call_end();
+        am_nonzero_live(MAXOBJ - 1);
+        vh_call_begin("cleanup after bulk usage"); if (par) c->par_cleanup(&h); else c->ctr_cleanup(&h); vh_call_end();
+        VH_COUNT("bulk_usage_objects", 1);
+    }
     /* ---------- offline check of the allocator event log ---------- */
     {
         const am_event *ev = am_events(); int nev = am_nevents(), e;
